@@ -44,6 +44,13 @@ func compareCalls(c *ExecCase, pr *model.Printed, b *build.Built, want *ref.Resu
 		return ""
 	}
 	calls := lr.Sess.Snapshot()
+	// callbacks that were not handed the caller's context record themselves in the schema's
+	// fallback session
+	if b.Default != nil {
+		for _, rec := range b.Default.Snapshot() {
+			return fmt.Sprintf("%s of %s at %v: the caller's context did not reach the callback (it was handed %s)", rec.Kind, rec.DefType, rec.Path, "a context without the request's values, or none")
+		}
+	}
 	got := map[string][]build.CallRec{}
 	for _, rec := range calls {
 		if !rec.CtxSession {
